@@ -33,14 +33,45 @@ INJECT = {
     "crates/maybenot-ffi/src/lib.rs": (CRATE_ATTR, _mod("ffi/lib_kani.rs")),
 }
 
-# source-level patch used ONLY by the native replay build of contract harnesses
-# (see DESIGN.md 2.7): the first statement of `fn transition` defers to the
-# natively compiled contract stub when the replay asks for it.
-REPLAY_STUB_ANCHOR = "fn transition(&mut self, mi: usize, event: Event) -> StateChange {"
-REPLAY_STUB_LINE = (
-    "\n        #[cfg(verif_replay_stub)]\n"
-    "        if let Some(r) = verif_kani::replay_transition_hook(self, mi, event) { return r; }\n"
-)
+# Source-level patch lines used ONLY by the native replay build (DESIGN.md 2.7). Each line is
+# compiled out unless `--cfg verif_replay_stub` is given (never by the Kani verification build):
+# it lets the natively compiled test link the same contract stubs that `#[kani::stub]` applies
+# under CBMC. An anchor that no longer matches (signature changed) only disables that hook.
+def _hook(expr):
+    return "\n        #[cfg(verif_replay_stub)]\n        if let Some(r) = %s { return r; }\n" % expr
+
+REPLAY_HOOKS = {
+    "crates/maybenot/src/framework.rs": [
+        ("fn transition(&mut self, mi: usize, event: Event) -> StateChange {",
+         _hook("verif_kani::replay_transition_hook(self, mi, event)")),
+        ("fn update_counter(&mut self, mi: usize) -> (bool, bool) {",
+         _hook("verif_kani::replay_update_counter_hook(self, mi)")),
+        ("fn below_action_limits(&self, runtime: &MachineRuntime<T>, machine: &Machine) -> bool {",
+         _hook("verif_kani::replay_limits_hook(self, runtime, machine)")),
+    ],
+    "crates/maybenot/src/state.rs": [
+        ("pub fn sample_state<R: RngCore>(&self, event: Event, rng: &mut R) -> Option<usize> {",
+         _hook("verif_kani::replay_sample_state_hook(self, event, rng)")),
+        ("pub fn validate(&self, num_states: usize) -> Result<(), Error> {",
+         _hook("crate::machine::verif_kani::replay_state_validate_hook(self, num_states)")),
+    ],
+    "crates/maybenot/src/action.rs": [
+        ("pub(crate) fn sample_timeout<R: RngCore>(&self, rng: &mut R) -> u64 {",
+         _hook("crate::framework::verif_kani::replay_timeout_hook(self, rng)")),
+        ("pub(crate) fn sample_duration<R: RngCore>(&self, rng: &mut R) -> u64 {",
+         _hook("crate::framework::verif_kani::replay_duration_hook(self, rng)")),
+        ("pub(crate) fn sample_limit<R: RngCore>(&self, rng: &mut R) -> u64 {",
+         _hook("crate::framework::verif_kani::replay_limit_hook(self, rng)")),
+    ],
+    "crates/maybenot/src/counter.rs": [
+        ("pub fn sample_value<R: RngCore>(&self, rng: &mut R) -> u64 {",
+         _hook("crate::framework::verif_kani::replay_value_hook(self, rng)")),
+    ],
+    "crates/maybenot/src/dist.rs": [
+        ("fn dist_sample<R: RngCore>(self, rng: &mut R) -> f64 {",
+         _hook("verif_kani::replay_dist_hook(self, rng)")),
+    ],
+}
 
 
 class Scratch:
@@ -70,10 +101,21 @@ class Scratch:
                 continue
             with open(p) as f:
                 src = f.read()
-            if rel.endswith("framework.rs") and REPLAY_STUB_ANCHOR in src:
-                src = src.replace(REPLAY_STUB_ANCHOR, REPLAY_STUB_ANCHOR + REPLAY_STUB_LINE, 1)
             with open(p, "w") as f:
                 f.write(pre + src + post.replace("@H@", self.harness))
+        for rel, hooks in REPLAY_HOOKS.items():
+            p = os.path.join(self.repo, rel)
+            if not os.path.exists(p):
+                continue
+            with open(p) as f:
+                src = f.read()
+            for anchor, line in hooks:
+                if anchor in src:
+                    src = src.replace(anchor, anchor + line, 1)
+                else:
+                    self.missing.append("hook anchor in %s: %s" % (rel, anchor[:50]))
+            with open(p, "w") as f:
+                f.write(src)
         # Kani injects `#[macro_use] extern crate kani`, which the workspace lint denies
         ct = os.path.join(self.repo, "Cargo.toml")
         with open(ct) as f:
